@@ -61,6 +61,14 @@ def cases(thorough):
         for wu, pu, box in [("m", "cm", 1.0), ("cm", "m", 4.0)]:
             for op in ("sum", "mean"):
                 yield dict(base, block="U", dz=1 / 2, dx=1.0, resolution=3, operation=op, origin=o, direction="z", win_unit=wu, pos_unit=pu, box=box)
+        # block V: the kernels under map() on 2 and 3 virtual threads (static work split), depth resolutions that the
+        # thread count does not divide; the layer varies along the normal on every refined mesh
+        if ti % 2 == 0 or thorough:
+            for T_ in (2, 3):
+                for rz in (3, 4, 5):
+                    for op in (OPS if thorough else ("mean", "nanmean", "sum", "nanmax")):
+                        yield dict(base, block="V", dz=1.0, dx=1.0, resolution={"x": 3, "y": 3, "z": rz}, operation=op, origin=o2, direction="z", virtual_threads=T_)
+                yield dict(base, block="V", dz=1.5, dx=1.5, resolution={"x": 5, "y": 4, "z": 5}, operation="nanmean", origin=o, direction="z", virtual_threads=T_)
         # block S: sequences of thick maps in one process, mixing the default resolution, partial dictionaries and ints
         if ti in (0, 2):
             K1 = dict(base, dz=2 / 256, dx=1.0, resolution=None, operation="sum", origin=o, direction="z")
